@@ -19,8 +19,7 @@ import types
 from hypothesis import strategies as st
 
 from vlib.runner import Part, Out
-from vlib import aio
-from vlib.oneworker import prepare_loop, barrier
+from vlib.oneworker import run_fresh, barrier
 
 PROPERTY_ID = "C01"
 LEVEL = "exploration"
@@ -535,6 +534,10 @@ async def _run(case, out):
             fut = w.obj.finished
             if fut.done() and not fut.cancelled():
                 fut.exception()
+            try:
+                w.obj.close_handle()  # nothing may stay pending when the loop is closed
+            except Exception:  # noqa
+                pass
         try:
             if manager is not None:
                 manager.stop()
@@ -555,8 +558,7 @@ async def _run(case, out):
 
 def run_case(case):
     out = Out()
-    loop = prepare_loop()
-    aio.run(_run(case, out), loop)
+    run_fresh(lambda loop: _run(case, out))
     return out
 
 
